@@ -85,8 +85,7 @@ _long_label = st.text(alphabet=_LDH_MIXED, min_size=56, max_size=63).filter(_no_
 _odd_label = st.text(alphabet=_ASCII_ODD, min_size=1, max_size=6).filter(_no_ace)
 _idn_label = st.one_of(
     st.sampled_from(IDN_POOL),
-    st.sampled_from(_IDN_ALPHABETS).flatmap(lambda a: st.text(alphabet=a, min_size=1, max_size=9)).filter(
-        idna_canonical_label),
+    st.one_of(*[st.text(alphabet=a, min_size=1, max_size=9) for a in _IDN_ALPHABETS]).filter(idna_canonical_label),
 )
 
 #: labels a real peer sends (and mitmproxy's str form can express): LDH, mixed case, underscore, IDN
@@ -132,166 +131,284 @@ def name_pool(lbl=label):
         st.integers(0, 19), max_name, st.integers(0, 9)).map(_mk_pool)
 
 
-# ---------------------------------------------------------------- scalar fields
-_ptr16 = st.one_of(st.integers(0xC00C, 0xC040), st.sampled_from([0xC000, 0xC00C, 0xC00D, 0xC011, 0xC0FF, 0xFFFF,
-                                                                  0xC10C, 0xE00C, 0xFF0C]))
-u16 = st.one_of(st.integers(0, 0xFFFF), st.integers(0, 100), _ptr16)
-u16_ptrish = st.one_of(_ptr16, st.integers(0xC000, 0xFFFF))
-u32 = st.one_of(st.integers(0, 0xFFFFFFFF), st.integers(0, 100000),
-                st.tuples(_ptr16, st.integers(0, 0xFFFF)).map(lambda t: t[0] << 16 | t[1]),
-                st.tuples(st.integers(0, 0xFFFF), _ptr16).map(lambda t: t[0] << 16 | t[1]),
-                st.tuples(st.integers(0, 0xFF), _ptr16, st.integers(0, 0xFF)).map(lambda t: t[0] << 24 | t[1] << 8 | t[2]))
-ttl = st.one_of(st.sampled_from([0, 1, 60, 300, 3600, 86400, 0x7FFFFFFF, 0x80000000, 0xFFFFFFFF, 0xC00C0000 | 0xC00C]),
-                st.integers(0, 0xFFFFFFFF))
-klass = st.one_of(st.just(1), st.just(1), st.just(1), st.sampled_from([3, 4, 254, 255, 0]), st.integers(0, 0xFFFF))
+# ---------------------------------------------------------------- fast structured generation
+# Hypothesis' per-draw overhead (~20-60 us) dominates when a message needs ~200 draws, so a message is decoded from ONE
+# Hypothesis draw (a fixed-size byte string used as an entropy stream).  Zero bytes decode to the simplest choice, so
+# Hypothesis' byte-wise shrinking still simplifies cases.
+class Src:
+    __slots__ = ("b", "i")
 
-_ptr_bytes = _ptr16.map(lambda v: struct.pack("!H", v))
-_text_piece = st.one_of(
-    st.sampled_from([b"v=spf1 include:_spf.example.com ~all", b"hello", b"k=rsa; p=MIGf", b"\xc3\xa9t\xc3\xa9",
-                     b"\xe4\xb8\xad\xe6\x96\x87", b"\xf0\x9f\x98\x80", b"", b" ", b"\x00", b"\xff", b"\xc0", b"\xc0\x0c"]),
-    _ptr_bytes, _ptr_bytes,
-    st.binary(min_size=0, max_size=12),
-    st.text(alphabet=_LDH + " =;:.", max_size=20).map(lambda s: s.encode()),
-)
-_cs_body = st.lists(_text_piece, max_size=5).map(lambda ps: b"".join(ps)[:255])
-char_string = _cs_body.map(lambda b: bytes([len(b)]) + b)
-char_string_long = st.binary(min_size=200, max_size=255).map(lambda b: bytes([len(b)]) + b)
-blob = st.one_of(st.lists(_text_piece, max_size=6).map(b"".join), st.binary(max_size=40))
+    def __init__(self, b: bytes):
+        self.b = b
+        self.i = 0
 
-KNOWN_OPAQUE_TYPES = [R.A, R.AAAA, R.TXT, R.HINFO, R.OPT, R.HTTPS, R.SVCB, R.NULL, R.DS, R.DNSKEY, R.RRSIG, R.NSEC,
-                      R.CAA, R.WKS, R.X25, R.ISDN, R.KEY]
-NAME_TYPES = sorted(R.LAYOUT)
+    def u8(self) -> int:
+        i = self.i
+        self.i = i + 1
+        return self.b[i] if i < len(self.b) else 0
+
+    def u16(self) -> int:
+        return self.u8() << 8 | self.u8()
+
+    def u32(self) -> int:
+        return self.u16() << 16 | self.u16()
+
+    def below(self, n: int) -> int:
+        return (self.u8() if n <= 256 else self.u16()) % n
+
+    def pick(self, seq):
+        return seq[self.below(len(seq))]
+
+    def take(self, n: int) -> bytes:
+        i = self.i
+        self.i = i + n
+        out = self.b[i:i + n]
+        return out + b"\0" * (n - len(out))
+
+
+_COMMON = ["www", "com", "example", "org", "net", "mail", "ns1", "ns2", "_tcp", "_udp", "_sip", "_dmarc", "a", "b", "c",
+           "in-addr", "arpa", "ip6", "10", "0", "co", "uk", "test", "localhost", "x", "WWW", "Example", "*", "0/26",
+           "a" * 63, "b" * 62, "0" * 63]
+_ODD = [c for c in _ASCII_ODD]
+
+
+def _text(s: Src, alphabet, lo, hi):
+    n = lo + s.below(hi - lo + 1)
+    return "".join(alphabet[s.below(len(alphabet))] for _ in range(n))
+
+
+def gen_label(s: Src, odd=True) -> str:
+    for _ in range(4):
+        k = s.below(12)
+        if k < 4:
+            return _COMMON[s.below(len(_COMMON))]
+        if k < 6:
+            l = _text(s, _LDH, 1, 12)
+        elif k < 8:
+            l = _text(s, _LDH_MIXED, 1, 20)
+        elif k == 8:
+            l = _text(s, _LDH_MIXED, 56, 63)
+        elif k == 9:
+            return IDN_POOL[s.below(len(IDN_POOL))]
+        elif k == 10:
+            l = _text(s, _IDN_ALPHABETS[s.below(len(_IDN_ALPHABETS))], 1, 9)
+            if idna_canonical_label(l):
+                return l
+            continue
+        else:
+            l = _text(s, _ODD if odd else _LDH_MIXED, 1, 6)
+        if _no_ace(l):
+            return l
+    return "x"
+
+
+def gen_pool(s: Src, odd=True):
+    out = []
+    for _ in range(1 + s.below(3)):
+        out.append(fit_name([gen_label(s, odd) for _ in range(1 + s.below(3))]))
+    for _ in range(s.below(4)):
+        pre = [gen_label(s, odd) for _ in range(1 + s.below(2))]
+        out.append(fit_name(pre + out[s.below(len(out))]))
+    k = s.below(40)
+    if k == 0:
+        out.append(["abcXYZ019_"[s.below(10)] * 61, "mno"[s.below(3)] * 63, "p" * 63, "q" * 63])
+    elif k < 4:
+        out.append([])  # root
+    return out
+
+
+_PTR16 = [0xC000, 0xC00C, 0xC00D, 0xC011, 0xC0FF, 0xFFFF, 0xC10C, 0xE00C, 0xFF0C]
+
+
+def gen_ptr16(s: Src) -> int:
+    return 0xC00C + s.below(0x35) if s.below(2) else s.pick(_PTR16)
+
+
+def gen_u16(s: Src) -> int:
+    k = s.below(4)
+    return s.below(101) if k == 0 else gen_ptr16(s) if k == 1 else s.u16()
+
+
+def gen_u32(s: Src) -> int:
+    k = s.below(6)
+    if k == 0:
+        return s.below(101)
+    if k == 1:
+        return gen_ptr16(s) << 16 | s.u16()
+    if k == 2:
+        return s.u16() << 16 | gen_ptr16(s)
+    if k == 3:
+        return s.u8() << 24 | gen_ptr16(s) << 8 | s.u8()
+    return s.u32()
+
+
+_TTLS = [0, 60, 300, 3600, 1, 86400, 0x7FFFFFFF, 0x80000000, 0xFFFFFFFF, 0xC00CC00C]
+_CLASSES = [3, 4, 254, 255, 0]
+_TEXTS = [b"v=spf1 include:_spf.example.com ~all", b"hello", b"k=rsa; p=MIGf", b"\xc3\xa9t\xc3\xa9",
+          b"\xe4\xb8\xad\xe6\x96\x87", b"\xf0\x9f\x98\x80", b"", b" ", b"\x00", b"\xff", b"\xc0", b"\xc0\x0c"]
+
+
+def gen_ttl(s: Src) -> int:
+    k = s.below(4)
+    return s.pick(_TTLS) if k < 2 else s.pick(_TTLS[:4]) if k == 2 else s.u32()
+
+
+def gen_class(s: Src) -> int:
+    k = s.below(8)
+    return 1 if k < 6 else s.pick(_CLASSES) if k == 6 else s.u16()
+
+
+def gen_piece(s: Src) -> bytes:
+    k = s.below(5)
+    if k == 0:
+        return s.pick(_TEXTS)
+    if k < 3:
+        return struct.pack("!H", gen_ptr16(s))
+    if k == 3:
+        return s.take(s.below(13))
+    return _text(s, _LDH + " =;:.", 0, 20).encode()
+
+
+def gen_cs(s: Src) -> bytes:
+    if s.below(12) == 0:
+        body = s.take(200 + s.below(56))
+    else:
+        body = b"".join(gen_piece(s) for _ in range(s.below(5)))[:255]
+    return bytes([len(body)]) + body
+
+
+def gen_blob(s: Src) -> bytes:
+    if s.below(2):
+        return b"".join(gen_piece(s) for _ in range(s.below(6)))
+    return s.take(s.below(41))
+
+
+_MODES = [0, 1, 1, 1, 2]
+
+
+def gen_fields(s: Src, rtype: int, npool: int, comp: bool):
+    """RDATA field list of one record of ``rtype`` (well-formed for the type); names are pool indices"""
+    def nm(plain=False):
+        return ["n", s.below(npool), (s.pick(_MODES) if comp and not plain else 0)]
+
+    lay = R.LAYOUT.get(rtype)
+    if lay is not None:
+        out = []
+        for f in lay:
+            if f == "n":
+                out.append(nm())
+            elif f == "cs":
+                out.append(["b", gen_cs(s)])
+            elif f == "rest":
+                out.append(["b", gen_blob(s)])
+            elif f == 1:
+                out.append(["b", bytes([s.u8()])])
+            elif f == 2:
+                out.append(["b", _be(gen_u16(s), 2)])
+            else:
+                out.append(["b", _be(gen_u32(s), 4)])
+        return out
+    if rtype == R.A:
+        return [["b", s.pick([b"\xc0\x0c\xc0\x0c", b"\xc0\xa8\x00\x01", b"\x7f\x00\x00\x01"]) if s.below(3) == 0 else s.take(4)]]
+    if rtype == R.AAAA:
+        return [["b", b"\xc0\x0c" * 8 if s.below(4) == 0 else s.take(16)]]
+    if rtype == R.TXT:
+        return [["b", gen_cs(s)] for _ in range(1 + s.below(3))]
+    if rtype == R.HINFO:
+        return [["b", gen_cs(s)], ["b", gen_cs(s)]]
+    if rtype in (R.HTTPS, R.SVCB):
+        params = b""
+        for _ in range(s.below(4)):
+            v = gen_blob(s)
+            params += _be(s.below(8), 2) + _be(len(v), 2) + v
+        # RFC 9460: TargetName is never compressed
+        return [["b", _be(gen_u16(s), 2)], nm(True), ["b", params]]
+    if rtype == R.OPT:
+        out = []
+        for _ in range(s.below(4)):
+            v = gen_blob(s)
+            out.append(["b", _be(s.below(21), 2) + _be(len(v), 2) + v])
+        return out
+    if rtype == R.RRSIG:
+        return [["b", s.take(18)], nm(True), ["b", gen_blob(s)]]
+    if rtype == R.NSEC:
+        return [nm(True), ["b", gen_blob(s)]]
+    return [["b", gen_blob(s)]]
+
+
+_SPECIAL = set(R.LAYOUT) | {R.A, R.AAAA, R.TXT, R.HINFO, R.HTTPS, R.SVCB, R.OPT, R.RRSIG, R.NSEC}
+_SPECIAL_L = sorted(_SPECIAL)
+_COMMON_T = [R.A, R.AAAA, R.CNAME, R.NS, R.PTR, R.MX, R.SOA, R.SRV, R.TXT, R.TXT, R.HTTPS, R.OPT, R.HINFO]
+_OTHER_T = [R.NULL, R.DS, R.DNSKEY, R.CAA, R.WKS, R.X25, R.ISDN, R.KEY, 99, 255, 0, 0xFFFF]
+_QTYPES = [1, 28, 5, 2, 12, 15, 6, 33, 16, 65, 255, 252]
+
+
+def gen_type(s: Src, types=None) -> int:
+    if types is not None:
+        return s.pick(types)
+    k = s.below(8)
+    if k < 4:
+        return s.pick(_COMMON_T)
+    if k < 6:
+        return s.pick(_SPECIAL_L)
+    t = s.pick(_OTHER_T) if k == 6 else s.u16()
+    return t if t not in _SPECIAL else 0xFE00 + t  # type codes without a layout known here: RDATA = arbitrary bytes
+
+
+def gen_record(s: Src, npool: int, comp: bool, types=None):
+    t = gen_type(s, types)
+    return [s.below(npool), (s.pick(_MODES) if comp else 0), t, gen_class(s), gen_ttl(s), gen_fields(s, t, npool, comp)]
+
+
+def gen_header(s: Src):
+    mid = s.pick([0, 0xFFFF, 0xC00C]) if s.below(8) == 0 else s.u16()
+    flags = s.u16()
+    if s.below(2):  # what almost all real traffic looks like: opcode QUERY, Z = 0, small rcode
+        flags &= 0x8783
+    return {"id": mid, "qr": flags >> 15, "opcode": (flags >> 11) & 15, "aa": (flags >> 10) & 1, "tc": (flags >> 9) & 1,
+            "rd": (flags >> 8) & 1, "ra": (flags >> 7) & 1, "z": (flags >> 4) & 7, "rcode": flags & 15}
+
+
+def gen_message(s: Src, odd=True, comp=True, max_q=3, max_rr=4, qr=None, types=None):
+    d = gen_header(s)
+    if qr is not None:
+        d["qr"] = qr
+    pool = gen_pool(s, odd)
+    n = len(pool)
+    nq = min(max_q, s.pick([1, 1, 1, 1, 0, 2, 3, 1]))
+
+    def rr():
+        i, m, ty, c, tl, fs = gen_record(s, n, comp, types)
+        return [pool[i], m, ty, c, tl, [[f[0], pool[f[1]], f[2]] if f[0] == "n" else f for f in fs]]
+
+    d["q"] = [[pool[s.below(n)], (s.pick(_MODES) if comp else 0), (s.pick(_QTYPES) if s.below(4) else s.u16()),
+               gen_class(s)] for _ in range(nq)]
+    if d["qr"] == 0 and s.below(4):
+        # plain query: no records except sometimes an OPT
+        d["an"], d["ns"] = [], []
+        d["ar"] = [rr_opt(s, pool, comp)] if s.below(2) else []
+    else:
+        d["an"] = [rr() for _ in range(s.below(max_rr + 1))]
+        d["ns"] = [rr() for _ in range(s.below(max(1, max_rr // 2) + 1))]
+        d["ar"] = [rr() for _ in range(s.below(max(1, max_rr // 2) + 1))]
+    return d
+
+
+def rr_opt(s: Src, pool, comp):
+    return [[], 0, R.OPT, 1232 if s.below(2) else s.u16(), gen_ttl(s), gen_fields(s, R.OPT, len(pool), comp)]
+
+
+ENTROPY = 1024
+
+
+def message(lbl=None, allow_comp=True, max_q=3, max_rr=4, qr=None, types=None, odd=True):
+    """strategy for a message description (one Hypothesis draw; see Src).  ``types``: restrict record types"""
+    return st.binary(min_size=ENTROPY, max_size=ENTROPY).map(
+        lambda b: gen_message(Src(b), odd, allow_comp, max_q, max_rr, qr, types))
 
 
 def _be(n, size):
     return n.to_bytes(size, "big")
-
-
-comp_mode = st.sampled_from([0, 1, 1, 1, 2])
-_idx = st.integers(0, 15)
-
-
-def _b(s):
-    return s.map(lambda v: ["b", v])
-
-
-def _seq(*parts):
-    return st.tuples(*parts).map(list)
-
-
-def _rdata_fields(rtype, allow_comp):
-    """strategy for the RDATA field list of one record of ``rtype`` (well-formed for the type); names are pool indices"""
-    nm = st.tuples(st.just("n"), _idx, comp_mode if allow_comp else st.just(0)).map(list)
-    nm_plain = st.tuples(st.just("n"), _idx, st.just(0)).map(list)
-    b, seq = _b, _seq
-    lay = R.LAYOUT.get(rtype)
-    if lay is not None:
-        parts = []
-        for f in lay:
-            if f == "n":
-                parts.append(nm)
-            elif f == "cs":
-                parts.append(b(char_string))
-            elif f == "rest":
-                parts.append(b(blob))
-            elif f == 1:
-                parts.append(b(st.integers(0, 255).map(lambda v: _be(v, 1))))
-            elif f == 2:
-                parts.append(b(u16.map(lambda v: _be(v, 2))))
-            else:
-                parts.append(b(u32.map(lambda v: _be(v, 4))))
-        return seq(*parts)
-    if rtype == R.A:
-        return seq(b(st.one_of(st.binary(min_size=4, max_size=4), st.sampled_from([b"\xc0\x0c\xc0\x0c", b"\xc0\xa8\x00\x01",
-                                                                                   b"\x7f\x00\x00\x01"]))))
-    if rtype == R.AAAA:
-        return seq(b(st.one_of(st.binary(min_size=16, max_size=16), st.just(b"\xc0\x0c" * 8))))
-    if rtype == R.TXT:
-        return st.lists(b(st.one_of(char_string, char_string, char_string_long)), min_size=1, max_size=3)
-    if rtype == R.HINFO:
-        return seq(b(char_string), b(char_string))
-    if rtype in (R.HTTPS, R.SVCB):
-        params = st.lists(st.tuples(st.integers(0, 7), blob).map(
-            lambda t: _be(t[0], 2) + _be(len(t[1]), 2) + t[1]), max_size=3).map(b"".join)
-        # RFC 9460: TargetName is never compressed
-        return seq(b(u16.map(lambda v: _be(v, 2))), nm_plain, b(params))
-    if rtype == R.OPT:
-        return st.lists(b(st.tuples(st.integers(0, 20), blob).map(
-            lambda t: _be(t[0], 2) + _be(len(t[1]), 2) + t[1])), max_size=3)
-    if rtype == R.RRSIG:
-        return seq(b(st.binary(min_size=18, max_size=18)), nm_plain, b(blob))
-    if rtype == R.NSEC:
-        return seq(nm_plain, b(blob))
-    return seq(b(blob))
-
-
-_SPECIAL = set(R.LAYOUT) | {R.A, R.AAAA, R.TXT, R.HINFO, R.HTTPS, R.SVCB, R.OPT, R.RRSIG, R.NSEC}
-#: type codes without a layout known to this generator (RDATA = arbitrary bytes)
-other_type = st.one_of(st.sampled_from([R.NULL, R.DS, R.DNSKEY, R.CAA, R.WKS, R.X25, R.ISDN, R.KEY, 99, 255, 0, 0xFFFF]),
-                       st.integers(0, 0xFFFF)).map(lambda t: t if t not in _SPECIAL else 0xFE00 + t)
-q_type = st.one_of(st.sampled_from([1, 28, 5, 2, 12, 15, 6, 33, 16, 65, 255, 252]), st.integers(0, 0xFFFF))
-
-
-def _record_of(t, allow_comp):
-    ts = st.just(t) if isinstance(t, int) else t
-    mode = comp_mode if allow_comp else st.just(0)
-    return st.tuples(_idx, mode, ts, klass, ttl, _rdata_fields(t if isinstance(t, int) else -1, allow_comp)).map(list)
-
-
-def _records(allow_comp):
-    common = [R.A, R.AAAA, R.CNAME, R.NS, R.PTR, R.MX, R.SOA, R.SRV, R.TXT, R.TXT, R.HTTPS, R.OPT, R.HINFO]
-    per = {t: _record_of(t, allow_comp) for t in sorted(_SPECIAL)}
-    return st.one_of(
-        st.one_of(*[per[t] for t in common]),
-        st.one_of(*[per[t] for t in common]),
-        st.one_of(*[per[t] for t in sorted(_SPECIAL)]),
-        _record_of(other_type, allow_comp),
-    ), per
-
-
-_RECORDS = {True: _records(True), False: _records(False)}
-
-header = st.fixed_dictionaries({
-    "id": st.one_of(st.integers(0, 0xFFFF), st.sampled_from([0, 0xFFFF, 0xC00C])),
-    "qr": st.integers(0, 1), "opcode": st.one_of(st.just(0), st.integers(0, 15)),
-    "aa": st.integers(0, 1), "tc": st.integers(0, 1), "rd": st.integers(0, 1), "ra": st.integers(0, 1),
-    "z": st.one_of(st.just(0), st.integers(0, 7)), "rcode": st.one_of(st.just(0), st.integers(0, 15)),
-})
-
-
-def _resolve(t):
-    hdr, pool, qs, shape, an, ns, ar, qr = t
-    n = len(pool)
-    d = dict(hdr)
-    if qr is not None:
-        d["qr"] = qr
-
-    def rr(r):
-        i, m, ty, c, tl, fs = r
-        return [pool[i % n], m, ty, c, tl, [[f[0], pool[f[1] % n], f[2]] if f[0] == "n" else f for f in fs]]
-
-    d["q"] = [[pool[i % n], m, ty, c] for i, m, ty, c in qs]
-    if d["qr"] == 0 and shape:
-        # plain query: no records except sometimes an OPT
-        d["an"], d["ns"] = [], []
-        d["ar"] = [rr(r) for r in ar if r[2] == R.OPT][:1]
-    else:
-        d["an"], d["ns"], d["ar"] = [rr(r) for r in an], [rr(r) for r in ns], [rr(r) for r in ar]
-    return d
-
-
-def message(lbl=label, allow_comp=True, max_q=3, max_rr=4, qr=None, types=None):
-    """strategy for a message description.  ``types``: restrict record types to this list of (special) type codes"""
-    rec, per = _RECORDS[bool(allow_comp)]
-    if types is not None:
-        rec = st.one_of(*[per[t] for t in types])
-    mode = comp_mode if allow_comp else st.just(0)
-    q = st.tuples(_idx, mode, q_type, klass).map(list)
-    nq = [1, 1, 1, 1, 0, 2, 3]
-    qs = st.sampled_from([k for k in nq if k <= max_q]).flatmap(lambda k: st.lists(q, min_size=k, max_size=k))
-    return st.tuples(header, name_pool(lbl), qs, st.integers(0, 3), st.lists(rec, max_size=max_rr),
-                     st.lists(rec, max_size=max(1, max_rr // 2)), st.lists(rec, max_size=max(1, max_rr // 2)),
-                     st.just(qr)).map(_resolve)
 
 
 # ---------------------------------------------------------------- desc helpers
